@@ -156,6 +156,19 @@ def run(ctx):
             "line": w["w_flow"] + ";G"},
            {"lang": 2201, "mode": "X", "xmlgen": 1, "pool": w["x_flow"].split(" ")[4], "ops": ["N0", "D", "N1"], "covered": False,
             "line": w["x_flow"]}]
+    L12 = pools.langs[2201]["tags"]
+    D12 = pools.langs[2202]["tags"]
+
+    def ti(tags, name):
+        return next(i for i, r in enumerate(tags) if r[0] == name)
+    # a node that encodes to nothing followed by a deletion (seeded C17_1), an embedded document (seeded C17_2)
+    zpool = "e%d.(.)/e%d.(.x%s.)/x-/c.(.)" % (ti(L12, "Add"), ti(L12, "Cmd"), b"zq".hex())
+    epool = "e%d.(.)/e%d.(.t2202.(.e%d.(.e%d.(.x%s.).).).)" % (ti(L12, "Add"), ti(L12, "Data"), ti(D12, "DevInf"), ti(D12, "VerDTD"), b"1.2".hex())
+    for mode, gen_ in (("W", 0), ("X", 0)):
+        pre.append({"lang": 2201, "mode": mode, "xmlgen": gen_, "pool": zpool, "ops": ["N0", "N1", "N2", "D", "N3", "D", "G"], "covered": False,
+                    "line": "flow 2201 %s %d %s N0;N1;N2;D;N3;D;G" % (mode, gen_, zpool)})
+        pre.append({"lang": 2201, "mode": mode, "xmlgen": gen_, "pool": epool, "ops": ["N0", "N1", "G"], "covered": False,
+                    "line": "flow 2201 %s %d %s N0;N1;G" % (mode, gen_, epool)})
     if getattr(ctx, "replay", None):
         rp = json.load(open(ctx.replay))
         if rp.get("input") and rp["input"].startswith("flow "):
